@@ -125,6 +125,14 @@ def _rank_snap(tier):
             "name": tier.name, "entries": ents, "min": rank[float(tier.minTimestamp)], "max": rank[float(tier.maxTimestamp)]}
 
 
+def _gen_op_near(rng, kind, cur, big):
+    while True:
+        o = _gen_op(rng, kind, cur, big)
+        if o["op"] in ("insert", "delete", "union", "difference", "intersection", "mergeLabels", "new") \
+                or (o["op"] == "crop" and not o["rebase"]) or (o["op"] == "erase" and not o["shrink"]):
+            return o
+
+
 def _run_history(t0, ops, sc, kind, gen_next=None, rng=None, nsteps=0):
     """Runs ops (or generates them adaptively) on the implementation; returns (ops, records)."""
     tier = core.mk_tier(t0, sc)
@@ -169,6 +177,16 @@ def generate(tier, rng):
         except core.OffGrid:
             continue
         cases.append({"op": "hist", "tier": t0, "args": {"ops": ops}, "scale": sc})
+    # histories on the grid of binary64 neighbours (tick 2m = m/10, 2m+1 its successor): boundaries one ulp apart either
+    # way; only operations that create no new time values, so that every state stays on the grid and is judged exactly
+    for _ in range(250 if tier == "quick" else 8000):
+        kind = "I" if rng.random() < 0.8 else "P"
+        t0 = gen.random_itier(rng, tmax=40, maxn=5) if kind == "I" else gen.random_ptier(rng, tmax=40, maxn=5)
+        try:
+            ops, _ = _run_history(t0, None, core.Scale("near", 1), kind, _gen_op_near, rng, rng.randint(1, 10))
+        except core.OffGrid:
+            continue
+        cases.append({"op": "hist", "tier": t0, "args": {"ops": ops}, "scale": ["near", 1]})
     # constructors on raw binary64 values whose boundaries touch, nearly touch (1 ulp apart either way) or are
     # decimal sums such as 0.1+0.2 against 0.3: whatever is returned must be well-formed in exact comparison
     import math
@@ -191,18 +209,19 @@ def generate(tier, rng):
                     s = prev_end if u < 0.3 else (math.nextafter(prev_end, 0.0) if u < 0.7 else math.nextafter(prev_end, math.inf))
                 if not s < e:
                     continue
-                ents.append([s.hex(), e.hex(), rng.choice(["a", "b", ""])])
+                ents.append([s.hex(), e.hex(), rng.choice(["a", "b", "", " a ", "b\t", "\n a"])])
                 prev_end = e
         else:
             for k in range(n):
-                ents.append([vals[k].hex(), rng.choice(["a", "b"])])
+                ents.append([vals[k].hex(), rng.choice(["a", "b", " a", "b \n"])])
         u = rng.random()
         lo = None if u < 0.4 else (0.0 if u < 0.8 else float.fromhex(ents[0][0]) if ents else 0.0)
         hi = None if rng.random() < 0.4 else 40.0
         if ents and rng.random() < 0.15:
             hi = math.nextafter(float.fromhex(ents[-1][-2]), 0.0)      # span 1 ulp short of the last entry
         cases.append({"op": "fctor", "tier": {"kind": kind, "name": "f", "entries": [], "min": 0, "max": 0},
-                      "args": {"ops": [], "ents": ents, "mn": None if lo is None else lo.hex(), "mx": None if hi is None else hi.hex()},
+                      "args": {"ops": [], "ents": ents, "mn": None if lo is None else lo.hex(), "mx": None if hi is None else hi.hex(),
+                               "etype": rng.choice(["tuple", "list", "nt", "nt"])},
                       "scale": ["decimal", 1]})
     return cases
 
@@ -211,7 +230,13 @@ def _run_fctor(case):
     from praatio.data_classes.interval_tier import IntervalTier
     from praatio.data_classes.point_tier import PointTier
     a = case["args"]
+    from praatio.utilities.constants import Interval, Point
     ents = [tuple([float.fromhex(x) for x in e[:-1]] + [e[-1]]) for e in a["ents"]]
+    # the entry containers a caller may hand over: plain tuples, lists, the library's own named tuples
+    if a.get("etype") == "list":
+        ents = [list(e) for e in ents]
+    elif a.get("etype") == "nt":
+        ents = [(Interval(*e) if len(e) == 3 else Point(*e)) for e in ents]
     cls = IntervalTier if case["tier"]["kind"] == "I" else PointTier
     try:
         with core.captured_stdout():
@@ -285,7 +310,7 @@ def emit(case, r):
         if err is not None:
             return None
         return "States%s %s" % (kind, core.clist(["(%s, %s)" % (ct(rk), core.cbool(v))]))
-    if case["scale"][0] == "decimal" or any(o.get("report") == "error" for o in case["args"]["ops"]):
+    if case["scale"][0] in ("decimal", "near") or any(o.get("report") == "error" for o in case["args"]["ops"]):
         # states only: rounding (decimal grid) or the raise-after-insert of the undocumented reporting mode are not modelled
         return "States%s %s" % (kind, core.clist(["(%s, %s)" % (ct(rk), core.cbool(v)) for _, st, v, rk in r["ok"]]))
     items = []
